@@ -9,7 +9,7 @@ ID = "C08"
 LEVEL = "exploration"
 RULE = ("operation histories of 3-14 steps over a growing pool of operands (plain str, chunks of six "
         "formatters incl. background-only, effects-only and a no_color one, earlier results): construction "
-        "from several parts, +, +=, reflected + with str, join (text, chunk or str items), index, slice with "
+        "from several parts, +, += (also on a text that was already rendered, and t += t), reflected + with str, join (text, chunk or str items), index, slice with "
         "positive / negative / out-of-range / None bounds and steps, fixed_len, format with "
         "[[fill]align][width]['s'], equality probes. A shadow model = list of (char, colour state) is updated "
         "with the semantics of str / list for the same operation; after every step plain_text(), len() and "
@@ -60,6 +60,8 @@ def fmts():
 
 def mk_leaf(rng):
     txt = "".join(rng.choice("abc xyz") for _ in range(rng.randint(0, 4)))
+    if rng.random() < 0.004:
+        txt = "".join(rng.choice("abc xyz") for _ in range(rng.choice([4095, 4096, 4097, 5000])))
     k = rng.randrange(len(FMT_SPECS))
     f, st = fmts()[k]
     if f is None:
@@ -119,8 +121,8 @@ def run_history(ctx, rng, script=None):
         n_steps = rng.randint(3, 14) if script is None else 10 ** 6
         for _step in range(n_steps):
             def gen_op():
-                op = rng.choice(['ctor', 'add', 'radd', 'iadd', 'join', 'idx', 'slice', 'slice', 'fixed',
-                                 'fmt', 'fmt', 'leaf'])
+                op = rng.choice(['ctor', 'add', 'radd', 'iadd', 'iadd', 'self_iadd', 'join', 'idx', 'slice', 'slice',
+                                 'fixed', 'fmt', 'fmt', 'leaf'])
                 a, b = choose(len(pool)), choose(len(pool))
                 rec = [op, a, b]
                 la = len(pool[a][1])
@@ -169,10 +171,20 @@ def run_history(ctx, rng, script=None):
                         continue
                     r = "pq" + b
                     mr = [('p', sgr.DEFAULT), ('q', sgr.DEFAULT)] + mb
+                elif op == 'self_iadd':
+                    if not isinstance(a, CHText):
+                        continue
+                    r = CHText(a)
+                    r += r            # the operand is the text itself
+                    mr = ma + ma
                 elif op == 'iadd':
                     if not isinstance(a, CHText):
                         continue
                     r = CHText(a)
+                    if rec[1] % 2:
+                        # the text was already rendered / measured before it is extended in place
+                        if sgr.cells(str(r)) != ma or len(r) != len(ma) or format(r, "") != str(r):
+                            fail("copy-differs-from-original", {"op": rec})
                     r += b
                     mr = ma + mb
                     if sgr.cells(str(a)) != ma:
